@@ -547,6 +547,13 @@ def run(ctx: Ctx, rs: RuleSet, tier: str):
   opn = [nm for _, nm in operands] or ['v1', 'v2']
   one_sided = {f'{a_} is missing or {b_} is missing'
                for a_, b_ in (opn, opn[::-1])} if len(opn) == 2 else set()
+  import re as _re
+  # whatever the "no value" sentinel is called
+  for t in src_tests:
+    m_ = _re.fullmatch(r'(\w+) is (\w+) or (\w+) is (\w+)', t)
+    if m_ and m_.group(2) == m_.group(4) and {m_.group(1), m_.group(3)} == set(
+        opn) and len(opn) == 2:
+      one_sided.add(t)
   rs.check(any(t in one_sided for t in src_tests) and any(
       ' != ' in t and all(nm in t for nm in opn)
       for t in src_tests), rule, f'{cb.qualname}:value-compare',
@@ -565,6 +572,29 @@ def run(ctx: Ctx, rs: RuleSet, tier: str):
       isinstance(t, ast.BoolOp) and isinstance(t.op, ast.And) and any(
           isinstance(v, ast.Compare) and isinstance(v.ops[0], ast.IsNot)
           for v in t.values[:1]) for t in ne_tests)
+  if not ok and ne_tests and len(looked_up) == 2:
+    # the same guard written as control flow: `if a is b: continue` before
+    # `if a != b: return False` - the comparison is not reached for one object
+    from fdlstatic import dispatch as _dp
+    g_cb = ctx.cfg(cb)
+
+    def _same_object(t):
+      if isinstance(t, ast.Compare) and len(t.ops) == 1 and {
+          unparse(t.left), unparse(t.comparators[0])} == looked_up:
+        if isinstance(t.ops[0], ast.Is):
+          return True
+        if isinstance(t.ops[0], ast.IsNot):
+          return False
+      return None
+
+    reach_same = _dp.reach_atoms(g_cb, _same_object)
+    ne_nodes = [n for n in g_cb.nodes() if g_cb.kind[n] == 'if' and any(
+        g_cb.stmt[n].test is t for t in ne_tests)]
+    has_is = any(_same_object(c) is not None
+                 for n in g_cb.nodes() if g_cb.kind[n] == 'if'
+                 for c in ast.walk(g_cb.stmt[n].test))
+    ok = has_is and bool(ne_nodes) and not any(n in reach_same
+                                               for n in ne_nodes)
   rs.check(ok, rule, f'{cb.qualname}:identity-first',
            '`v1 is not v2 and v1 != v2`: an object is equal to itself '
            'whatever its __eq__ says' if ok else
